@@ -21,6 +21,16 @@ Relations
                      the file is C02_Coords.model_run of this run's inputs and recorded draws
                      (prepare_coords -> sim_generations -> write_breakpoints).  The model of a run
                      has no access to the history (C02_run_independent_of_history).
+  bptext : the TEXT of the .bp file.  agree - the file's token lines are C02_Reader.render of the rows (the text
+           the theorems C02_reader_accepts / C02_karyogram_accepts are about), C05's model of Breakpoints.read
+           and C18's model of GetHaplotypeBlocks run on the file's lines return what the real readers returned;
+           holds - the clause "in a form that haptools' own breakpoint reader and karyogram accept", evaluated in
+           Coq on what the two readers returned (C02_holds_text_sound).
+  draws  : one case per _simulate call of recorded runs: the RAW numpy draws (choice, randint array as drawn, the
+           re-draws of the while loops, per child the homolog draws and the boolean mask rand < recomb_probs).
+           agree - C02_Draws.decode_gen (re-draw loop, row-major mask selection, stable sort) equals the harness's
+           decoding used by child / gen / seq, and every clause of the numpy contract holds on the recorded draws
+           (C02_gen_contractb_sound), so C02_run_tiles_from_contracts applies to the run; holds - the children tile.
 """
 import os
 import re
@@ -36,7 +46,8 @@ from .core import Relation, err_kind
 
 PROP = "C02"
 CLAIMED = True
-COQ_MODULES = ["C02_Check", "C02_Tiling", "C02_Generations", "C02_Proofs", "C02_Cm", "C02_Coords", "C02_SeqCheck"]
+COQ_MODULES = ["C02_Check", "C02_Tiling", "C02_Generations", "C02_Proofs", "C02_Cm", "C02_Coords", "C02_SeqCheck",
+               "C02_Reader", "C02_ReaderCheck", "C02_ReaderRun", "C02_Draws", "C02_DrawsCheck", "C02_CmRun"]
 PROPERTY_MODULE = "C02_Property"
 ALLOWED_AXIOMS = []
 
@@ -65,21 +76,36 @@ TRANSLATION = {
 }
 RULE = (
     "configurations: 1-4 chromosomes of 1..22,X, 2-9 markers with zero/tiny/huge cM gaps, 2-3 source populations "
-    "incl. zero fractions and pulses, 1-4 model lines, optional --region, popsize 2..30, 1-3 samples; "
+    "incl. zero fractions and pulses, 1-4 model lines, optional --region, popsize 2..30, 1-3 samples; about 40% carry "
+    "width-boundary features (population labels of exactly 6, of 7+ characters, pairs sharing their first 6; a chromosome "
+    "with a single marker; a marker at 2^31-2 before a last marker at 2^31-1 / beyond 2^31 / beyond 2^32; cM values printed "
+    "in exponent form); every run adds the boundary configurations 2n written haplotypes out of N with index / sample "
+    "number straddling 127|128 and 255|256 (N = 127..520, n = 63..257) and one chromosome of 65535..70000 markers; "
     "non-trivial = some written haplotype has >= 2 tracts on one chromosome. Distinct = distinct canonical JSON of the configuration. "
     "seq: one directory of 1-5 map files (4-10 markers) and 2-4 runs on it: region ending inside the chromosome -> wider region -> "
     "whole chromosome -> all chromosomes; moving regions; overlapping chromosome subsets; the same run repeated; each run with its "
     "own model / population size / seed; non-trivial = two runs share a chromosome with different chromosome lists or regions and "
-    "some haplotype has >= 2 tracts on one chromosome."
+    "some haplotype has >= 2 tracts on one chromosome. bptext: small files (1-2 samples, <= 3 chromosomes), all with the "
+    "width-boundary features; non-trivial = some haplotype has more tracts than chromosomes. draws: populations of 2-8 "
+    "individuals (the re-draw loop runs in most generations); non-trivial = some re-draw loop ran."
 )
 TRUSTED = [
-    "numpy RNG draws are recorded, not modelled (universally quantified in the theorems)",
+    "numpy RNG draws are recorded, not modelled; what numpy guarantees about them is the explicit contract C02_Draws.gen_contract, "
+    "evaluated on every recorded _simulate call (relation draws) and universally quantified in the theorems",
     "cM values are compared through order-preserving integer ranks computed by the harness",
-    "Python float repr / float() round-trip for the cM column",
+    "Python float repr / float() round-trip for the cM column (hypothesis flt_codec of C02_run_file_accepted; the file's cM texts are "
+    "recorded per token and parsed back by table in relation bptext)",
+    "C05_Model.bp_read / C18_Model.parse_blocks are the models of Breakpoints.read / GetHaplotypeBlocks: validated by C05's and C18's "
+    "relations on generated files and, here, on every file simgenotype wrote (relation bptext, agree)",
 ]
 ASSUMPTIONS = [
-    "chromosome list strictly increasing (documented: sorted), map bp/cM increasing (events ordered), first model line has admixed fraction 0",
+    "chromosome list strictly increasing (documented: sorted), map positions strictly increasing, every position but a chromosome's last "
+    "below 2^31-1 (the sentinel; human chromosomes are < 2^28), cM never decreasing (C02_Draws.map_ok; the stable sort by "
+    "(chromosome, cM) is then the identity: C02_sort_sorted_id), first model line has admixed fraction 0",
     "seq: one map file per chromosome, its first column = the chromosome of its name; a region is given with chroms = [its chromosome] (as the command does); every run has a seed",
+    "reader clause: population labels do not start with '#' and - while STRICT_LABEL_WIDTH is off - have at most 6 characters "
+    "(a model naming a longer one is judged on everything but Breakpoints.read: open finding, fixes/C02_label_width.patch, "
+    "corpus/C02/bptext_long_labels.json)",
 ]
 MAXI = 2**31 - 1
 
@@ -106,10 +132,34 @@ def parse_bp(path, pops):
     return rows
 
 
-def run_once(d, cfg, model_name, prefix, children=False):
-    """simulate_gt + write_breakpoints on the map directory d with the model file d/model_name; the .bp file
-    parsed by the independent parser and re-read by haptools' Breakpoints and karyogram.  With children=True
-    also the markers handed to _simulate and the decoded draws of every child of every generation."""
+# Switch for the integrator.  simgenotype copies the population labels of the model file's header into the .bp
+# file; Breakpoints.read stores a label in a 'U6' field and (since fix 0bcb215, fixes/C05_field_width.patch) refuses
+# a block line whose label has more than 6 characters with a ValueError (before that fix it silently cut the label
+# to 6 characters: "EuropeB" and "EuropeC" became one population).  So for a model whose header names a population
+# with more than 6 characters simgenotype writes a file that haptools' own breakpoint reader does not accept - the
+# last clause of the property fails.  Witness: corpus/C02/bptext_long_labels.json; Coq: C02_long_label_mangled; the
+# theorems C02_reader_accepts / C02_run_file_accepted carry the hypothesis "labels have at most 6 characters".
+# False (default) = the tree as it is: for a model that names a population with more than 6 characters what
+#   Breakpoints.read does with the file is compared with the reader's model only (agree), not judged (holds); the
+#   karyogram and every other clause are judged as for any model.
+# True = the tree with fixes/C02_label_width.patch: validate_params refuses such a model up front (the configuration
+#   is then outside the property's "valid models" and not judged), and whatever simgenotype writes must be read back
+#   by Breakpoints.read in full.  On the unrepaired tree the switch makes ./check report
+#   VIOLATION property=C02 ... "bptext haptools reader/karyogram does not accept the file (ValueError: The population label ...".
+# Also settable with HV_C02_STRICT_LABEL_WIDTH=1.
+STRICT_LABEL_WIDTH = os.environ.get("HV_C02_STRICT_LABEL_WIDTH", "0") == "1"
+
+
+def judge_read(cfg):
+    return STRICT_LABEL_WIDTH or not any(len(p) > 6 for p in cfg["pops"])
+
+
+def run_once(d, cfg, model_name, prefix, children=False, text=False, raw=False):
+    """validate_params (as the command does) + simulate_gt + write_breakpoints on the map directory d with the model
+    file d/model_name; the .bp file parsed by the independent parser and re-read by haptools' Breakpoints and
+    karyogram.  With children=True also the markers handed to _simulate and the decoded draws of every child of
+    every generation; with text=True the file's token lines and what the two readers returned; with raw=True the
+    raw numpy draws of every _simulate call."""
     from haptools.logging import getLogger
     import haptools.sim_genotype as sg
     from haptools.data import Breakpoints
@@ -119,6 +169,13 @@ def run_once(d, cfg, model_name, prefix, children=False):
     log = getLogger("hv", "CRITICAL")
     model = os.path.join(d, model_name)
     out = os.path.join(d, prefix)
+    pops = ["Admixed"] + cfg["pops"]
+    try:
+        sg.validate_params(model, d, cfg["chroms"], cfg["popsize"], None, None, False, cfg["region"], True)
+    except Exception as e:  # noqa
+        if any(len(p) > 6 for p in cfg["pops"]):
+            return {"rejected": f"{type(e).__name__}: {e}"[:200]}
+        return {"failed": {"err": err_kind(e), "cls": type(e).__name__, "msg": "validate_params: " + str(e)[:180]}}
     rec = c01.Recorder()
     extra = {}
     try:
@@ -130,7 +187,7 @@ def run_once(d, cfg, model_name, prefix, children=False):
             extra = {"failed": {"err": err_kind(e), "cls": type(e).__name__, "msg": str(e)[:200]}}
     finally:
         rec.close()
-    if children:
+    if children or raw:
         # the markers as _simulate received them in its first call, and every child's draws
         try:
             if rec.gens:
@@ -139,8 +196,12 @@ def run_once(d, cfg, model_name, prefix, children=False):
                                    for row in g0["coords"]]
             if "failed" not in extra:
                 ident = lambda x: x
-                extra["gens"] = [[[k["pop"], k["ia"], k["ib"], k["h0"], k["hd"], k["evs"]] for k in c01.children_of(g, ident)]
-                                 for g in rec.gens]
+                kids = [c01.children_of(g, ident) for g in rec.gens]
+                extra["gens"] = [[[k["pop"], k["ia"], k["ib"], k["h0"], k["hd"], k["evs"]] for k in ks] for ks in kids]
+                if raw:
+                    extra["raw"] = [raw_of(g) for g in rec.gens]
+                    extra["outs"] = [[k["obs"]["ok"] for k in ks] for ks in kids]
+                    extra["gen_chroms"] = [[int(c) if c != "X" else 23 for c in g["chroms"]] for g in rec.gens]
         except AssertionError as e:
             return {"unobserved": str(e)}
     if "failed" in extra:
@@ -149,12 +210,12 @@ def run_once(d, cfg, model_name, prefix, children=False):
     if len(draws) != 1 or rec.log[mark:] != draws:
         return {"unobserved": "write_breakpoints draw protocol changed"}
     idx = [int(i) for i in draws[0][3]]
-    pops = ["Admixed"] + cfg["pops"]
     rows = parse_bp(out + ".bp", pops)
     final = [[[int(s.get_pop()), int(s.get_chrom()), int(s.get_end_coord()), float(s.get_end_pos())] for s in h] for h in gen]
     # haptools' own readers
     reader_ok = True
     why = ""
+    tobs = {}
     try:
         bps = Breakpoints(out + ".bp", log=log)
         recs = []
@@ -169,6 +230,9 @@ def run_once(d, cfg, model_name, prefix, children=False):
             bps.read()
         finally:
             log.removeHandler(cap)
+        if text:
+            tobs["read"] = {"ok": [[str(k), [[[str(b["pop"]), str(b["chrom"]), int(b["bp"]), float(b["cm"])] for b in arr]
+                                             for arr in v]] for k, v in bps.data.items()]}
         if any(r in ("WARNING", "ERROR") for r in recs):
             reader_ok, why = False, "reader logged " + ",".join(recs)
         if list(bps.data.keys()) != [f"Sample_{i + 1}" for i in range(cfg["nsamples"])]:
@@ -178,18 +242,103 @@ def run_once(d, cfg, model_name, prefix, children=False):
                 for st in range(2):
                     arr = bps.data[f"Sample_{i + 1}"][st]
                     exp = rows[2 * i + st][2]
-                    got = [[pops.index(str(b["pop"])), 23 if str(b["chrom"]) == "X" else int(b["chrom"]), int(b["bp"]), float(b["cm"])] for b in arr]
-                    if got != exp:
+                    if len(arr) != len(exp) or any(
+                            str(b["pop"]) != pops[e[0]]
+                            or (23 if str(b["chrom"]) == "X" else int(b["chrom"])) != e[1]
+                            or int(b["bp"]) != e[2] or float(b["cm"]) != e[3] for b, e in zip(arr, exp)):
                         reader_ok, why = False, "blocks differ"
-        # karyogram finds every sample with as many blocks as the file has
-        for i in range(cfg["nsamples"]):
-            sb = karyogram.GetHaplotypeBlocks(out + ".bp", f"Sample_{i + 1}")
-            if len(sb) != 2 or any(len(sb[st]) != len(rows[2 * i + st][2]) for st in range(2)):
-                reader_ok, why = False, "karyogram blocks differ"
+                        if any(len(pops[e[0]]) > 6 for e in exp):
+                            why = "labels longer than 6 characters are not read back"
     except Exception as e:  # noqa
         reader_ok, why = False, f"{type(e).__name__}: {e}"
-    return dict(extra, rows=rows, final=final, idx=idx, reader_ok=reader_ok, why=why)
+        if text:
+            tobs["read"] = {"err": err_kind(e)}
+    read_unjudged = False
+    if not reader_ok and not judge_read(cfg):
+        # a model with a population label of more than 6 characters on the unrepaired tree (see STRICT_LABEL_WIDTH)
+        reader_ok, why, read_unjudged = True, "", True
+    # karyogram finds every sample with, per strand, one block per line: same label, chromosome number, cM end
+    kary = []
+    for i in range(cfg["nsamples"]):
+        try:
+            sb = karyogram.GetHaplotypeBlocks(out + ".bp", f"Sample_{i + 1}")
+            kary.append({"ok": [[[str(b["pop"]), int(b["chrom"]), float(b["end"])] for b in strand] for strand in sb]})
+            exp = [[[pops[e[0]], e[1], e[3]] for e in rows[2 * i + st][2]] for st in range(2)]
+            if kary[-1]["ok"] != exp:
+                reader_ok, why = False, "karyogram blocks differ"
+        except BaseException as e:  # noqa  (sys.exit for an absent sample)
+            if isinstance(e, KeyboardInterrupt):
+                raise
+            kary.append({"err": err_kind(e)})
+            reader_ok, why = False, f"karyogram {type(e).__name__}: {e}"
+    if text:
+        raw_lines = [ln.rstrip("\n") for ln in open(out + ".bp")]
+        tobs["lines"] = [ln.split("\t") for ln in raw_lines]
+        tobs["ws_same"] = all(ln.split() == ln.split("\t") for ln in raw_lines)
+        tobs["kary"] = kary
+    return dict(extra, rows=rows, final=final, idx=idx, reader_ok=reader_ok, why=why, read_unjudged=read_unjudged, **tobs)
 
+
+def raw_of(gen):
+    """The raw numpy draws of one _simulate call, from the recorder's log (see c01.children_of for the protocol)."""
+    lg = gen["log"]
+    n = int(gen["samples"])
+    assert lg[0][0] == "choice" and lg[1][0] == "randint", "draw protocol changed"
+    pp = [int(x) for x in lg[0][3]]
+    haps = [int(x) for x in lg[1][3]]
+    rpos = [j for j in range(2, len(lg)) if lg[j][0] == "rand"]
+    assert len(rpos) == n, "draw protocol changed"
+    # the first child's homolog draw is the entry just before the first rand: everything between the randint array
+    # and it is a draw of a re-draw loop, np.random.randint(samples)
+    red = lg[2:rpos[0] - 1]
+    assert all(x[0] == "randint" and x[1] == (n,) and not x[2] for x in red), "draw protocol changed"
+    redraw = [int(x[3]) for x in red]
+    assert len(rpos) == n, "draw protocol changed"
+    kids = []
+    for s in range(n):
+        j = rpos[s]
+        assert lg[j - 1][0] == "randint" and lg[j - 1][1] == (2,), "draw protocol changed"
+        stop = (rpos[s + 1] - 1) if s + 1 < n else len(lg)
+        hd = [int(x[3]) for x in lg[j + 1:stop]]
+        mask = (lg[j][3] < gen["probs"])
+        kids.append([int(lg[j - 1][3]), hd, [[bool(x) for x in row] for row in mask]])
+    nprev = len(gen["prev"]) if gen["prev"] else 0
+    return {"n": n, "nprev": nprev, "pp": pp, "haps": haps, "redraw": redraw, "kids": kids}
+
+
+# (population size N, written samples n): the written haplotype index runs to 2n-1, the sample number to n
+POPSIZE_SMALL = [(127, 63), (128, 64), (130, 65), (255, 127), (256, 128)]      # index / number up to 127 | 128 | 255
+POPSIZE_BIG = [(258, 129), (300, 129), (514, 257), (520, 257)]                 # sample number 129 (> int8), 257 (> uint8); index > 255
+
+
+def boundary_config(rng, kind, which=None):
+    """Width-boundary configurations.  popsize-*: 2n written haplotypes drawn without replacement out of N, with the
+    haplotype index and the sample number straddling 127|128 and 255|256 (N = 2n: every haplotype is written, in a
+    drawn order).  markers: one chromosome with 65535..70000 markers (flat cM but a few large gaps, so that a
+    handful of events occur)."""
+    cfg = c01.make_config(rng)
+    if kind.startswith("popsize"):
+        table = POPSIZE_SMALL if kind == "popsize-small" else POPSIZE_BIG
+        if which is None and kind == "popsize-big":
+            which = 2 + int(rng.integers(0, 2))       # quick: always past both 128 and 256 samples
+        N, ns = table[int(rng.integers(0, len(table))) if which is None else which]
+        c = cfg["chroms"][0]
+        keep = {c: cfg["maps"][c][:3]}
+        lines = cfg["model"][:2]
+        if len(lines) == 2:
+            lines = [lines[0], [lines[0][0] + 1] + lines[1][1:]]       # two consecutive generations: 2N children in all
+        return dict(cfg, chroms=[c], maps=keep, region=None, model=lines, popsize=N, nsamples=ns, boundary=f"haplotypes={N},samples={ns}")
+    nm = int(rng.choice([65535, 65536, 65537, 70000]))
+    c = cfg["chroms"][0]
+    jumps = set(int(x) for x in rng.choice(np.arange(1, nm), size=6, replace=False))
+    cm, bp, rows = 0.0, 10, []
+    for i in range(nm):
+        if i in jumps:
+            cm += 60.0
+        rows.append([c, round(cm, 6), bp])
+        bp += int(1 + (i * 7) % 29)
+    ns = 1
+    return dict(cfg, chroms=[c], maps={c: rows}, region=None, model=cfg["model"][:2], popsize=4, nsamples=ns, boundary=f"markers={nm}")
 
 
 class BpFile(Relation):
@@ -216,10 +365,18 @@ class BpFile(Relation):
     def generate(self, rng, n, tier):
         out = []
         for _ in range(n):
-            cfg = c01.make_config(rng)
+            cfg = c01.make_config(rng, wide=bool(rng.random() < 0.4))
             ns = cfg["nsamples"]
             cfg["popsize"] = int(max(cfg["popsize"], 2 * ns) if rng.random() < 0.5 else 10 * ns)
             out.append(cfg)
+        # width boundaries, a few per run: the draw without replacement and the sample numbering around 127|128 and
+        # 255|256 haplotypes, a chromosome of more than 65535 markers
+        if tier == "quick":
+            out += [boundary_config(rng, "popsize-small"), boundary_config(rng, "popsize-big"), boundary_config(rng, "markers")]
+        else:
+            out += [boundary_config(rng, "popsize-small", j) for j in range(len(POPSIZE_SMALL))]
+            out += [boundary_config(rng, "popsize-big", j) for j in range(len(POPSIZE_BIG))]
+            out += [boundary_config(rng, "markers") for _ in range(4)]
         return out
 
     def run_impl(self, cfg):
@@ -233,6 +390,8 @@ class BpFile(Relation):
     def encode(self, cfg, obs):
         chnum = [23 if c == "X" else int(c) for c in cfg["chroms"]]
         fr = L.lst(cfg["model"], lambda ln: L.lst(ln[1:], lambda x: L.q(Fraction(str(x)))))
+        if "rejected" in obs:
+            return []          # a model with a label of more than 6 characters, refused up front: not judged
         if "rows" not in obs:
             e = obs["failed"]["err"] if "failed" in obs else (97 if "unobserved" in obs else obs.get("kind", 99))
             return f"(mkb {L.zl(chnum)} {L.z(cfg['nsamples'])} {fr} [] [] (Err {L.z(e)}) true)"
@@ -254,13 +413,22 @@ class BpFile(Relation):
 
     def classes(self, cfg, obs):
         out = [f"chroms={len(cfg['chroms'])}", f"region={'y' if cfg['region'] else 'n'}", f"lines={len(cfg['model'])}"]
+        out += list(cfg.get("wide", []))
+        if cfg.get("boundary"):
+            out.append("boundary:" + cfg["boundary"])
+        if "rejected" in obs:
+            out.append("long-label-model-rejected-up-front")
         if "rows" in obs:
+            if any(s[2] == MAXI - 1 for r in obs["rows"] for s in r[2]):
+                out.append("tract-ending-at-2^31-2")
             if any(x == 0 for ln in cfg["model"] for x in ln[2:]):
                 out.append("zero-fraction")
             if any(len(r[2]) == len(cfg["chroms"]) for r in obs["rows"]):
                 out.append("haplotype-without-breakpoints")
             if not obs["reader_ok"]:
                 out.append("reader-rejects")
+            if obs.get("read_unjudged"):
+                out.append("long-label-file-refused-by-Breakpoints.read(not-judged:STRICT_LABEL_WIDTH-off)")
         else:
             out.append("failed" if "failed" in obs else "unobserved")
         return out
@@ -272,7 +440,10 @@ class BpFile(Relation):
         if "failed" in obs:
             return f"bpfile simulate_gt/write_breakpoints raised {obs['failed'].get('cls')}"
         if "rows" in obs and not obs["reader_ok"]:
-            return f"bpfile haptools reader/karyogram does not accept the file ({obs['why'][:40]})"
+            why = obs["why"]
+            if "too long" in why or "labels longer" in why:
+                why = "a population label of more than 6 characters is refused / not read back by Breakpoints.read"
+            return f"bpfile haptools reader/karyogram does not accept the file ({why[:100]})"
         return "bpfile tiling/labels/framing"
 
 
@@ -296,6 +467,209 @@ class Gen(c01.Child):
             return f"gen simulate_gt raised {obs['failed'].get('cls')}"
         return "gen child does not tile the chromosomes"
 
+
+
+def cps(s):
+    """A string as the list of its code points."""
+    return L.zl([ord(ch) for ch in s])
+
+
+class BpText(Relation):
+    """The text of the .bp file: it is the rendering the reader theorems are about, the reader models run on it
+    return what the real readers returned, and the real readers accept it (evaluated in Coq)."""
+
+    name = "bptext"
+    coq_module = "C02_ReaderCheck"
+    coq_check = "check_text"
+    coq_case_type = "tcase"
+    coq_model = "model_text"
+    coq_imports = ["Tracts", "BpText", "C01_Model", "C02_Model", "C05_Model", "C18_Model", "C02_Reader"]
+    budget = {"quick": 14, "thorough": 400}
+    max_cases_per_shard = 5
+    anchors = [
+        ("haptools/sim_genotype.py", "write_breakpoints"),
+        ("haptools/sim_genotype.py", "simulate_gt"),
+        ("haptools/sim_genotype.py", "validate_params"),
+        ("haptools/data/breakpoints.py", "Breakpoints.__iter__"),
+        ("haptools/karyogram.py", "GetHaplotypeBlocks"),
+    ]
+
+    def generate(self, rng, n, tier):
+        out = []
+        for _ in range(n):
+            cfg = c01.make_config(rng, wide=True)
+            # small files: the text goes to Coq character by character
+            ns = min(int(cfg["nsamples"]), 2)
+            cfg = dict(cfg, nsamples=ns, popsize=int(max(2 * ns, min(int(cfg["popsize"]), 6))))
+            if len(cfg["chroms"]) > 3:
+                ch = cfg["chroms"][:3]
+                cfg = dict(cfg, chroms=ch, maps={c: cfg["maps"][c] for c in ch})
+            out.append(cfg)
+        return out
+
+    def run_impl(self, cfg):
+        d = tempfile.mkdtemp(prefix="hv_c02t_")
+        try:
+            c01.write_config(cfg, d)
+            return run_once(d, cfg, "model.dat", "out", text=True)
+        finally:
+            shutil.rmtree(d, ignore_errors=True)
+
+    def encode(self, cfg, obs):
+        if "rejected" in obs:
+            return []
+        pops = ["Admixed"] + cfg["pops"]
+        from . import c05
+        strict = L.b(c05.STRICT_FIELD_WIDTH)      # which reader the tree under test has (C05's switch)
+        if "rows" not in obs or "lines" not in obs:
+            e = obs["failed"]["err"] if "failed" in obs else (97 if "unobserved" in obs else obs.get("kind", 99))
+            return f"(mkt [] [] (Err {L.z(e)}) [] true {strict} true (Err 97) [])"
+        lines = obs["lines"]
+        vals = {s[3] for r in obs["rows"] for s in r[2]}
+        if "ok" in obs["read"]:
+            vals |= {b[3] for smp in obs["read"]["ok"] for strand in smp[1] for b in strand}
+        for k in obs["kary"]:
+            if "ok" in k:
+                vals |= {b[2] for strand in k["ok"] for b in strand}
+        rank = {v: i for i, v in enumerate(sorted(vals))}
+        text = {}
+        for ln in lines:
+            if len(ln) == 4:
+                try:
+                    text.setdefault(float(ln[3]), ln[3])
+                except ValueError:
+                    pass
+        cms = L.lst(sorted(text), lambda v: f"({L.z(rank[v])}, {cps(text[v])})" if v in rank else f"(-1, {cps(text[v])})")
+        seg = lambda sg: c01.seg_term([sg[0], sg[1], sg[2], rank[sg[3]]])
+        row = lambda r: f"({L.z(r[0])}, {L.z(r[1])}, {L.lst(r[2], seg)})"
+        blk = lambda b: f"(C05_Model.mkcb {cps(b[0])} {cps(b[1])} {L.z(b[2])} {L.z(rank[b[3]])})"
+        if "ok" in obs["read"]:
+            read = "(Ok " + L.lst(obs["read"]["ok"], lambda smp: f"({cps(smp[0])}, ({L.lst(smp[1][0], blk)}, {L.lst(smp[1][1], blk)}))") + ")"
+        else:
+            read = f"(Err {L.z(obs['read']['err'])})"
+        kb = lambda b: f"({cps(b[0])}, {L.z(b[1])}, {L.z(rank[b[2]])})"
+        kary = L.lst(obs["kary"], lambda k: "(Ok " + L.lst(k["ok"], lambda st: L.lst(st, kb)) + ")" if "ok" in k else f"(Err {L.z(k['err'])})")
+        return (f"(mkt {L.lst(pops, cps)} {cms} (Ok {L.lst(obs['rows'], row)}) {L.lst(lines, lambda ln: L.lst(ln, cps))} "
+                f"{L.b(obs['ws_same'])} {strict} {L.b(judge_read(cfg))} {read} {kary})")
+
+    def nontrivial(self, cfg, obs):
+        return "rows" in obs and any(len(r[2]) > len(cfg["chroms"]) for r in obs["rows"])
+
+    def classes(self, cfg, obs):
+        out = [f"chroms={len(cfg['chroms'])}"] + list(cfg.get("wide", []))
+        if "rejected" in obs:
+            out.append("long-label-model-rejected-up-front")
+        elif "rows" in obs:
+            written = {cfg["pops"][s[0] - 1] for r in obs["rows"] for s in r[2] if s[0] >= 1}
+            if any(len(x) > 6 for x in written):
+                out.append("written-label-longer-than-6")
+            if len({x[:6] for x in written}) < len(written):
+                out.append("written-labels-collide-on-6-characters")
+            if any("e" in ln[3] for ln in obs.get("lines", []) if len(ln) == 4):
+                out.append("cm-text-exponential")
+            if not obs["reader_ok"]:
+                out.append("reader-rejects")
+            if obs.get("read_unjudged"):
+                out.append("long-label-file-refused-by-Breakpoints.read(not-judged:STRICT_LABEL_WIDTH-off)")
+        else:
+            out.append("failed" if "failed" in obs else "unobserved")
+        return out
+
+    shrink = c01.Child.shrink
+    mutate = c01.Child.mutate
+
+    def signature(self, cfg, obs):
+        if "failed" in obs:
+            return f"bptext simulate_gt/write_breakpoints raised {obs['failed'].get('cls')}"
+        if "rows" in obs and not obs["reader_ok"]:
+            why = obs["why"]
+            if "too long" in why or "labels longer" in why:
+                why = "a population label of more than 6 characters is refused / not read back by Breakpoints.read"
+            return f"bptext haptools reader/karyogram does not accept the file ({why[:100]})"
+        return "bptext text of the file / reader models"
+
+
+class Draws(Relation):
+    """One case per _simulate call: the raw numpy draws decoded by C02_Draws.decode_gen, the numpy contract."""
+
+    name = "draws"
+    coq_module = "C02_DrawsCheck"
+    coq_check = "check_draws"
+    coq_case_type = "dcase"
+    coq_model = "model_draws"
+    coq_imports = ["Tracts", "C01_Model", "C02_Model", "C02_Generations", "C02_Coords", "C02_Draws"]
+    budget = {"quick": 16, "thorough": 500}
+    max_cases_per_shard = 60
+    anchors = [("haptools/sim_genotype.py", "_simulate"), ("haptools/sim_genotype.py", "simulate_gt"),
+               ("haptools/sim_genotype.py", "_prepare_coords")]
+
+    def generate(self, rng, n, tier):
+        out = []
+        for _ in range(n):
+            cfg = c01.make_config(rng, wide=bool(rng.random() < 0.4))
+            # small populations make the re-draw loop run (two equal parental draws) in most generations
+            cfg["popsize"] = int(rng.choice([2, 2, 3, 3, 4, 5, 8]))
+            cfg["nsamples"] = 1
+            out.append(cfg)
+        return out
+
+    def run_impl(self, cfg):
+        d = tempfile.mkdtemp(prefix="hv_c02d_")
+        try:
+            c01.write_config(cfg, d)
+            return run_once(d, cfg, "model.dat", "out", raw=True)
+        finally:
+            shutil.rmtree(d, ignore_errors=True)
+
+    def encode(self, cfg, obs):
+        if "rejected" in obs:
+            return []
+        if "raw" not in obs:
+            e = obs["failed"]["err"] if "failed" in obs else (97 if "unobserved" in obs else obs.get("kind", 99))
+            return f"(mkd [1] [] 0 0 (mkgr [] [] [] []) [] (Err {L.z(e)}))"
+        vals = {m[1] for row in obs["coords"] for m in row}
+        vals |= {e[2] for g in obs["gens"] for k in g for e in k[5]}
+        vals |= {s[3] for g in obs["outs"] for h in g for s in h}
+        rank = {v: i for i, v in enumerate(sorted(vals))}
+        mk = lambda m: f"({L.z(m[0])}, {L.z(rank[m[1]])})"
+        coords = L.lst(obs["coords"], lambda r: L.lst(r, mk))
+        ev = lambda e: f"(mkev {L.z(e[0])} {L.z(e[1])} {L.z(rank[e[2]])})"
+        kid = lambda k: f"(mkcd {L.z(k[0])} {L.z(k[1])} {L.z(k[2])} {L.b(k[3])} {L.bl(k[4])} {L.lst(k[5], ev)})"
+        seg = lambda s: c01.seg_term([s[0], s[1], s[2], rank[s[3]]])
+        terms = []
+        for raw, dec, outs, chs in zip(obs["raw"], obs["gens"], obs["outs"], obs["gen_chroms"]):
+            rk = lambda k: f"({L.b(k[0])}, {L.bl(k[1])}, {L.lst(k[2], L.bl)})"
+            g = f"(mkgr {L.zl(raw['pp'])} {L.zl(raw['haps'])} {L.zl(raw['redraw'])} {L.lst(raw['kids'], rk)})"
+            terms.append(f"(mkd {L.zl(chs)} {coords} {L.z(raw['n'])} {L.z(raw['nprev'])} {g} {L.lst(dec, kid)} "
+                         f"(Ok {L.lst(outs, lambda h: L.lst(h, seg))}))")
+        return terms
+
+    def nontrivial(self, cfg, obs):
+        return "raw" in obs and any(r["redraw"] for r in obs["raw"])
+
+    def classes(self, cfg, obs):
+        out = [f"chroms={len(cfg['chroms'])}", f"popsize={cfg['popsize']}"] + list(cfg.get("wide", []))
+        if "raw" in obs:
+            out.append(f"generations={len(obs['raw'])}")
+            if any(r["redraw"] for r in obs["raw"]):
+                out.append("re-draw-loop-ran")
+            if any(len(r["redraw"]) >= 2 and any(r["redraw"][i] == r["redraw"][i + 1] for i in range(len(r["redraw"]) - 1)) for r in obs["raw"]):
+                out.append("re-draw-repeated")
+            if any(sum(sum(row) for row in k[2]) >= 2 for r in obs["raw"] for k in r["kids"]):
+                out.append("child-with->=2-events")
+        elif "rejected" in obs:
+            out.append("long-label-model-rejected-up-front")
+        else:
+            out.append("failed" if "failed" in obs else "unobserved")
+        return out
+
+    shrink = c01.Child.shrink
+    mutate = c01.Child.mutate
+
+    def signature(self, cfg, obs):
+        if "failed" in obs:
+            return f"draws simulate_gt raised {obs['failed'].get('cls')}"
+        return "draws decoding of the raw numpy draws / numpy contract / tiling of a generation"
 
 
 # ---------------------------------------------------------------------------
@@ -571,7 +945,7 @@ class Seq(Relation):
         return "seq tiling/labels/framing of a run of the history, or its markers differ from the map files'"
 
 
-RELATIONS = [BpFile(), Gen(), Seq()]
+RELATIONS = [BpFile(), Gen(), Seq(), BpText(), Draws()]
 
 LEVEL_TEXT = (
     "Coq theorems, for all strictly increasing chromosome lists, all ordered event lists, all draw streams and any number "
@@ -582,12 +956,22 @@ LEVEL_TEXT = (
     "_prepare_coords is a model function too: every chromosome's end coordinate - first, middle or last, with or without --region - is "
     "the sentinel (C02_prepare_coords_ends), so the tiling theorem holds for the whole run with no hypothesis on the end coordinates "
     "(C02_run_tiles); the model of a run is a function of that run's inputs only (C02_run_independent_of_history) and is evaluated "
-    "against every run of generated histories of runs made in one interpreter, each also compared with the same run made alone."
+    "against every run of generated histories of runs made in one interpreter, each also compared with the same run made alone. "
+    "The numpy statements before the per-child loop (choice of parents, re-draw loop, boolean-mask selection, stable sort) are a "
+    "model function (C02_Draws.decode_gen) compared with the recorded raw draws on every generation; numpy's contract on the raw "
+    "draws implies the hypothesis gens_ok of the tiling theorems (C02_contracts_gens_ok, C02_run_tiles_from_contracts) and is "
+    "evaluated clause by clause on the recorded draws (C02_gen_contractb_sound). The last clause is proved on the readers' models: "
+    "the text write_breakpoints produces (C02_Reader.render; the file is compared with it token by token) is read by C05's model of "
+    "Breakpoints.read as the samples Sample_1..Sample_n with exactly the written blocks (C02_reader_accepts, through C05's round trip) "
+    "and by C18's model of GetHaplotypeBlocks, for every sample, as two strands of one block per line (C02_karyogram_accepts); "
+    "for a whole run the per-tract hypotheses follow from the tiling and label theorems (C02_run_file_accepted)."
 )
 LEVEL_NOTE = (
-    "Trusted: Coq kernel/vm_compute; hand-written model validated differentially; numpy draw contracts (randint in range, "
-    "choice without replacement distinct and in range, choice(p) within the support) are hypotheses of the theorems; "
-    "cM monotonicity and the acceptance by haptools' own reader/karyogram are checked on the implementation's output only "
-    "(no theorem): partial for those two clauses."
+    "Trusted: Coq kernel/vm_compute; hand-written models validated differentially; numpy draw contracts (randint in range, "
+    "choice without replacement in range, choice(p) within the support, rand() >= 0) are hypotheses of the theorems, checked on "
+    "every recorded call; the token codecs int(str(z)) = z (proved for the concrete decimal printer: C02_dec_codec) and "
+    "float(repr(x)) = x are hypotheses. cM monotonicity is proved for whole runs on maps with monotone cM "
+    "(C02_run_cm_monotone_from_contracts) and checked on the files. Open finding: a model naming a population with more than 6 characters makes simgenotype write a file its own "
+    "reader refuses (hypothesis 'label <= 6 characters' of C02_reader_accepts; C02_long_label_mangled; switch STRICT_LABEL_WIDTH)."
 )
-TECHNIQUE = "Coq loop invariant + induction over generations; vm_compute-evaluated correspondence on recorded simulations and written .bp files"
+TECHNIQUE = "Coq loop invariant + induction over generations; reader acceptance through C05's round-trip theorem and a state-machine induction over C18's parser; vm_compute-evaluated correspondence on recorded simulations, raw numpy draws and written .bp files"
